@@ -52,12 +52,13 @@ PROFILES = {
     'events_smi': dict(smi_wide=True, event_pad=0.6, depth=(1, 2), regions=(1, 2), hierarchy_events=1.0, kleene=0.7, nevents=(4, 5), state_internal=0.3, sm_internal=0.8,
                    row_weights=(0, 1, 1, 2, 2, 3)),
     'flags': dict(flags=1.0, depth=(1, 3), state_internal=0.0, sm_internal=0.0, scripts=True),
+    'flags_deep': dict(flags=1.0, flag_deep=True, depth=(3, 3), regions=(1, 2), sub_initial=0.8, state_internal=0.0, sm_internal=0.0, scripts=True),
     'policy_after_entry': dict(action_none=0.4, guard_none=0.4, policy='after_entry', flags=0.7, depth=(1, 3), pseudo=0.3, row_budget=12, state_internal=0.2, sm_internal=0.0, scripts=True),
     'policy_after_action': dict(action_none=0.4, guard_none=0.4, policy='after_action', flags=0.7, depth=(1, 3), pseudo=0.3, row_budget=12, state_internal=0.2, sm_internal=0.0, scripts=True),
     'policy_after_exit': dict(action_none=0.4, guard_none=0.4, policy='after_exit', flags=0.7, depth=(1, 3), pseudo=0.3, row_budget=12, state_internal=0.2, sm_internal=0.0, scripts=True),
     'policy_before': dict(action_none=0.4, guard_none=0.4, policy='before', flags=0.7, depth=(1, 3), pseudo=0.3, row_budget=12, state_internal=0.2, sm_internal=0.0, scripts=True),
     'policy_default': dict(action_none=0.4, guard_none=0.4, policy='default', flags=0.7, depth=(1, 3), pseudo=0.3, row_budget=12, state_internal=0.2, sm_internal=0.0, scripts=True),
-    'blocking': dict(blocking=1.0, depth=(1, 1), regions=(1, 3), flags=0.5, state_internal=0.0, sm_internal=0.0, completion=0.25, scripts=True),
+    'blocking': dict(joint_block=0.6, blocking=1.0, depth=(1, 1), regions=(1, 3), flags=0.5, state_internal=0.0, sm_internal=0.0, completion=0.25, scripts=True),
     'queue': dict(scripts=True, depth=(1, 2), regions=(1, 2), completion=0.2, state_internal=0.2, sm_internal=0.0),
     'defer': dict(deferral=1.0, scripts=True, depth=(1, 1), regions=(1, 3), completion=0.0, state_internal=0.0, sm_internal=0.0),
     'defer_nested': dict(deferral=1.0, nested_deferral=True, scripts=True, depth=(2, 2), regions=(1, 2), completion=0.0, state_internal=0.0,
@@ -281,6 +282,8 @@ class Gen:
             self.add_flags(sp)
         if p['blocking'] > 0 and self.r.random() < p['blocking']:
             self.add_blocking(sp)
+            if p.get('joint_block', 0) > 0 and self.r.random() < p['joint_block']:
+                self.add_joint_blocking(sp)
         if p['history'] > 0:
             self.ensure_sub_cycles(sp)
         if p['pseudo'] > 0 and self.r.random() < p['pseudo']:
@@ -314,6 +317,35 @@ class Gen:
                     st['machine'].setdefault('as_state', {})['flags'] = fl
                 else:
                     st['flags'] = fl
+        if self.p.get('flag_deep'):
+            # F0 is carried only two or more levels below the root: the machines in between own no state with it
+            deep = []
+            for mm, path in S.machines(sp):
+                lvl = len(path) if hasattr(path, '__len__') else 0
+                for sname, st in mm['states'].items():
+                    holder = st['machine'].setdefault('as_state', {}) if st['kind'] == 'sub' else st
+                    fl = [f for f in holder.get('flags', []) if f != 'F0']
+                    if mm is not sp['root'] and self.depth_of(sp, mm) >= 3 and st['kind'] != 'sub':
+                        deep.append(holder)
+                    if fl:
+                        holder['flags'] = fl
+                    else:
+                        holder.pop('flags', None)
+            for holder in deep:
+                if r.random() < 0.7:
+                    holder['flags'] = sorted(set(holder.get('flags', [])) | {'F0'})
+
+    def depth_of(self, sp, target):
+        def rec(m, d):
+            if m is target:
+                return d
+            for st in m['states'].values():
+                if st['kind'] == 'sub':
+                    x = rec(st['machine'], d + 1)
+                    if x:
+                        return x
+            return 0
+        return rec(sp['root'], 1)
 
     def add_blocking(self, sp):
         r = self.r
@@ -339,6 +371,36 @@ class Gen:
             m['table'] = [rw for rw in m['table'] if not (rw['src'] == s and rw['ev'] is None)]
             if m['states'][s]['kind'] == 'terminate':
                 m['table'] = [rw for rw in m['table'] if rw['src'] != s]
+
+    def add_joint_blocking(self, sp):
+        """one event that moves several regions at once: one into a blocking state, the others into a blocking state of the
+        other kind or into a state that has a completion transition (both blocking kinds active together, completion work
+        pending when the machine becomes blocked)"""
+        r = self.r
+        m = sp['root']
+        if len(m['regions']) < 2:
+            return
+        events = [e['name'] for e in sp['events'] if not e.get('kleene')]
+        blk = [(ri, s) for ri, reg in enumerate(m['regions']) for s in reg if m['states'][s]['kind'] in ('terminate', 'interrupt')]
+        if not blk:
+            return
+        e = r.choice(events)
+        ri_b, sb = r.choice(blk)
+        kind_b = m['states'][sb]['kind']
+        def joint(ri, tgt):
+            init = m['regions'][ri][0]
+            m['table'] = [rw for rw in m['table'] if not (rw['src'] == init and rw['ev'] == e)]
+            m['table'].append(dict(src=init, ev=e, tgt=tgt, guard=None, actions=self.actions()))
+        joint(ri_b, sb)
+        for ri, reg in enumerate(m['regions']):
+            if ri == ri_b:
+                continue
+            other = [s for s in reg[1:] if m['states'][s]['kind'] in ('terminate', 'interrupt') and m['states'][s]['kind'] != kind_b]
+            compl = [s for s in reg[1:] if any(rw['src'] == s and rw['ev'] is None for rw in m['table'])]
+            rest = [s for s in reg[1:] if m['states'][s]['kind'] == 'simple']
+            pick = other or compl or rest
+            if pick and r.random() < 0.85:
+                joint(ri, r.choice(pick))
 
     def ensure_sub_cycles(self, sp):
         """history needs enter/exit cycles: every submachine gets rows entering it on >= 2 distinct events (for shallow
